@@ -415,3 +415,9 @@ PROPS['C19']['bounds'] += ' Const items: the constant default of 2^18-, 2^19- an
 PROPS['C08']['bounds'] += ' K also: a 136-byte element type (above a cache line / any small-array threshold even for N = 1) through generate, boxed generate, Default, default_boxed, map (same layout), &-map, zip, fold, clone.'
 PROPS['C13']['bounds'] += ' K also: the sequence of element comparisons (eq / partial_cmp / cmp calls on logging elements) made by ==, !=, partial_cmp, cmp, <, >= equals the one the slice comparison makes (short-circuit included).'
 PROPS['C07']['bounds'] += ' The pull limit (N + 1 calls of next, none after None) is checked inside the scripted source, so it also covers the forms that end in a panic (from_iter / collect, stack and boxed).'
+
+# sixth round: the crate's own map / fold bodies for a boxed receiver, if it has any (the trait defaults go through alloc::vec::IntoIter)
+for pid in ('C04', 'C16'):
+    for tier in ('quick', 'thorough'):
+        if tier in PROPS[pid]['mir']:
+            PROPS[pid]['mir'][tier].append(mrun(['box.map', 'box.fold'], nmax=3 if tier == 'quick' else 6))
